@@ -11,6 +11,7 @@ from __future__ import annotations
 
 import json
 import os
+import re
 import subprocess
 import sys
 import time
@@ -87,6 +88,16 @@ def build(job: dict) -> dict:
     if os.path.exists(sp):
         with open(sp) as f:
             static = json.load(f)
+    # C compiler errors attributed to the compiled function they are reported in
+    c_errors = []
+    cur = None
+    for line in out.splitlines():
+        m = re.search(r"In function ‘CPyDef_(\w+)’", line)
+        if m:
+            cur = m.group(1)
+        m = re.search(r"__native\S*\.c:\d+:\d+: error: (.*)", line)
+        if m and cur:
+            c_errors.append({"fn": cur, "message": re.sub(r"‘[^’]*’", "‘_’", m.group(1))[:200]})
     cfg = {}
     cp = os.path.join(d, "cfg.json")
     if os.path.exists(cp):
@@ -100,4 +111,4 @@ def build(job: dict) -> dict:
                     lib_rt = tok[2:]
             break
     return {"ok": rc == 0 and len(sos) == 1, "rc": rc, "seconds": round(secs, 2), "log": out[-6000:], "dir": d,
-            "mod": mod, "static": static, "cfg": cfg, "lib_rt": lib_rt}
+            "mod": mod, "static": static, "cfg": cfg, "lib_rt": lib_rt, "c_errors": c_errors}
